@@ -71,9 +71,17 @@ func FindDirectory(r io.ReaderAt, size int64) (int64, error) {
 		if end64.Signature != directory64EndSignature {
 			return 0, errors.New("zip central directory not found")
 		}
-		return int64(end64.CDOffset), nil
+		return checkDirLoc(int64(end64.CDOffset), size)
 	}
-	return int64(end.CDOffset), nil
+	return checkDirLoc(int64(end.CDOffset), size)
+}
+
+// the central directory must lie within the file
+func checkDirLoc(loc, size int64) (int64, error) {
+	if loc < 0 || loc > size {
+		return 0, errors.New("zip central directory offset is out of bounds")
+	}
+	return loc, nil
 }
 
 // Read a zip from a ReaderAt, with a separate copy of the central directory
